@@ -214,7 +214,7 @@ fn gen_response(r: &mut SplitMix) -> RefResponse {
     match r.below(5) {
         0 => RefResponse::Connect { transaction_id: b_i32(r), connection_id: b_i64(r) },
         1 => RefResponse::AnnounceV4 { transaction_id: b_i32(r), interval: b_i32(r), leechers: b_i32(r), seeders: b_i32(r), peers: (0..n).map(|_| ((r.next() as u32).to_be_bytes(), b_u16(r))).collect() },
-        2 => RefResponse::AnnounceV6 { transaction_id: b_i32(r), interval: b_i32(r), leechers: b_i32(r), seeders: b_i32(r), peers: (0..n).map(|_| ((r.next() as u128 * 0x1_0000_0001_0000_0001u128).to_be_bytes(), b_u16(r))).collect() },
+        2 => RefResponse::AnnounceV6 { transaction_id: b_i32(r), interval: b_i32(r), leechers: b_i32(r), seeders: b_i32(r), peers: (0..n).map(|_| ((r.next() as u128).wrapping_mul(0x1_0000_0001_0000_0001u128).to_be_bytes(), b_u16(r))).collect() },
         3 => RefResponse::Scrape { transaction_id: b_i32(r), stats: (0..n).map(|_| (b_i32(r), b_i32(r), b_i32(r))).collect() },
         _ => {
             let len = r.usize(40);
@@ -348,7 +348,7 @@ fn check_response(report: &mut Report, resp: &RefResponse) {
 
 fn main() {
     let args = Args::parse();
-    std::panic::set_hook(Box::new(|_| {}));
+    vcore::quiet_panics();
     let mut report = Report::new(
         "codec_udp",
         "aquatic_udp_protocol vs independent BEP 15 reference codec: write==reference bytes, parse(reference bytes)==value (requests with 0..64 extension bytes, replies of both families), rejection table (every truncation, unknown action/event, protocol id, port 0, empty/ragged hash list), scrape cut for every limit x count; \
